@@ -94,7 +94,12 @@ class CallMixin:
         for p in missing:
             if p not in fi.defaults:
                 return self.raise_ext(st, "TypeError", f"{fi.name}() missing argument {p}")
-        # defaults are evaluated in the module scope (all defaults in scope are constants / None)
+        # defaults are evaluated in the module scope (all defaults in scope are constants / None); a MUTABLE default object is created once
+        # at definition time and shared by every call - not modelled: undecided rather than silently treated as fresh per call
+        for p in missing:
+            if isinstance(fi.defaults[p], (ast.Dict, ast.List, ast.Set, ast.ListComp, ast.DictComp, ast.SetComp)) or (
+                    isinstance(fi.defaults[p], ast.Call) and isinstance(fi.defaults[p].func, ast.Name) and fi.defaults[p].func.id in ("dict", "list", "set", "defaultdict", "deque")):
+                raise Unsupported(f"mutable default argument {p} of {q} (one object shared by all calls)")
         for p in missing:
             st.frames.append({"__module__": fi.module})
             try:
@@ -490,6 +495,7 @@ class CallMixin:
             r = self.getattr_default(args[0], args[1], "__nodefault__", st.fork())
             return [("val", all(k == "val" for k, _, _ in r), st)]
         if short in ("any", "all") and isinstance(args[0], Ref) and st.get(args[0]).get("__kind__") == "glist":
+            self.use_generator(args[0], st)
             g = st.get(args[0])
             b = fresh("bool", short + "_of_generic")
             et = truth(st, g["elem"])
@@ -682,6 +688,11 @@ class CallMixin:
                 return self.dict_method(recv, stor, name, args, kwargs, st)
             if k == "list":
                 return self.list_method(recv, stor, name, args, kwargs, st)
+            if k == "glist" and name == "index" and len(args) == 1:
+                # list.index(x): the position of the FIRST element equal to x - some position of the list, not necessarily the one x came from
+                r = fresh("int", "first_equal_position")
+                st.assume(z3.And(r.t >= 0, r.t < stor["len"]))
+                return [("val", r, st)]
             if k == "set":
                 return self.set_method(recv, stor, name, args, kwargs, st)
             if k in self.container_models:
